@@ -313,9 +313,13 @@ func (f *File) seekWithoutLocking(offset int64, whence int) (int64, error) {
 		}
 		dst = int64(curr) + offset
 	case io.SeekEnd:
-		dst = f.info.Size() - offset
+		dst = f.info.Size() + offset
 	default:
 		return -1, config.ErrNotImplemented
+	}
+
+	if dst < 0 {
+		return -1, os.ErrInvalid
 	}
 
 	if f.readOpReader == nil || f.readOpWriter == nil || dst < int64(f.readOpReader.BytesRead) { // We have to re-open as we can't seek backwards
@@ -354,26 +358,12 @@ func (f *File) seekWithoutLocking(offset int64, whence int) (int64, error) {
 		f.readOpWriter = writer
 	}
 
-	written, err := io.CopyN(io.Discard, f.readOpReader, dst-int64(f.readOpReader.BytesRead))
-	if err == io.EOF {
-		// Noop
-		switch whence {
-		case io.SeekStart:
-			return offset, nil
-		case io.SeekCurrent:
-			return int64(f.readOpReader.BytesRead) + offset, nil
-		case io.SeekEnd:
-			return int64(f.info.Size()) - offset, nil
-		default:
-			return -1, config.ErrNotImplemented
-		}
-	}
-
-	if err != nil {
+	if _, err := io.CopyN(io.Discard, f.readOpReader, dst-int64(f.readOpReader.BytesRead)); err != nil && err != io.EOF { // Seeking past the end is not an error
 		return -1, err
 	}
 
-	return written, nil
+	// Seek reports the new offset relative to the start of the file
+	return dst, nil
 }
 
 // Inventory
